@@ -987,7 +987,17 @@ def run_norm_stream(chk, reqs, out):
         sw, sm = sum(w.values()), sum(mg.values())
         if bad or abs(sw - norm) > tol:
             k = bad[0] if bad else None
-            chk.violation(K_WEIGHTS_NORM % r["sim"],
+            key = K_WEIGHTS_NORM % r["sim"]
+            # PassiveState.fock_probabilities is itself wrong (not normalised) for a
+            # non-uniformly lossy state with a complex interferometer: the open finding
+            # C05:ryser-coefficient-extraction:conjugated-outer-product.  When the weights
+            # equal the state's own (wrong) marginals and only their sum is off, the
+            # executor did its job; the case is keyed to that root cause.
+            lossy_complex = (r["sim"] == "passive" and any(st["k"] == "LOSS" for st in r["prefix"])
+                             and any(st["k"] == "BS" and st["args"].get("phi") for st in r["prefix"]))
+            if lossy_complex and not bad and abs(sw - sm) <= tol:
+                key = "C03:passive:lossy-complex-interferometer:weights-follow-unnormalised-fock_probabilities"
+            chk.violation(key,
                           "shots=None: the branch weights are not the outcome probabilities of the measured state: weights sum to %.12g, state.norm = %.12g (its Fock probabilities sum to %.12g)%s" % (
                               sw, norm, sm, "" if k is None else "; outcome %s has weight %.12g, the state's marginal probability is %.12g" % (k, w.get(k, 0.0), mg.get(k, 0.0))),
                           {"case": r, "weights": o["weights"][:12], "marginal": o["marginal"][:12], "norm": norm})
